@@ -235,7 +235,8 @@ def run_selftest(chk, path, name, fn, expect_tag):
         chk.tool_error("selftest %s: %s" % (name, e))
         return
     tags = {t for _, t in diags}
-    ok = any(t == expect_tag or t.startswith(expect_tag) for t in tags)
+    want = expect_tag if isinstance(expect_tag, tuple) else (expect_tag,)
+    ok = any(t == w or t.startswith(w) for t in tags for w in want)
     chk.extra.setdefault("binding_selftest", []).append(dict(name=name, expected=expect_tag, reported=sorted(tags), rejected=ok))
     if not ok:
         chk.tool_error("selftest %s: corrupted trace was accepted (expected a %s difference, got %s)" % (name, expect_tag, sorted(tags)))
@@ -260,20 +261,20 @@ def corrupt_alloc(events):
 
 
 def corrupt_snapshot(events):
-    """An ID that is released in reality stays reserved in every later snapshot of its scenario (a simulated leak)."""
-    leak = None
+    """In every scenario an ID that is released in reality stays reserved in every later snapshot (a simulated leak)."""
+    leak, any_leak = None, False
     for e in events:
         if e.get("ev") == "Reset":
-            if leak is not None:
-                return events
+            leak = None
         if leak is None and e.get("ev") == "DrvRecv" and e.get("k") == "result":
             leak = e["id"]
+            any_leak = True
         if leak is not None:
             if "s" in e:
                 e["s"]["used"] = sorted(set(e["s"]["used"]) | {leak})
             if e.get("ev") == "Quiet":
                 e["used"] = sorted(set(e["used"]) | {leak})
-    return events if leak is not None else None
+    return events if any_leak else None
 
 
 def corrupt_time(events):
